@@ -1,6 +1,8 @@
 import LibInj.Proofs.Case
 import LibInj.Xss.IsXSS
 import LibInj.Proofs.XssCase
+import LibInj.Proofs.NulClass
+import LibInj.Proofs.XssNul
 set_option linter.unusedSimpArgs false
 /-! # C11 — XSS detection is insensitive to letter case and to NUL bytes inside names
 
@@ -23,8 +25,11 @@ Proved for every name (the classifiers are where names meet the black lists):
   (`black_tags_min_length`, re-checked on every build);
 * `name_scan_nul` — a NUL is an ordinary name byte for both name scans.
 
-Not yet a theorem: the NUL clause at tokenizer level (an inserted NUL shifts every later offset by
-one) — decided by the NUL metamorphic oracle over every generated input and every list entry. -/
+**NUL clause at tokenizer level, first element name (`nul_in_first_element_name`):** after any `<`-free
+text, inserting a NUL strictly inside the element name never changes the element-content verdict — the
+verdict on `text <name rest` is "`name` is black, or the verdict of what follows", and what follows is read
+from a machine state that depends on `rest` alone (shift naturality, C13). For names further inside the
+input the clause is decided by the NUL metamorphic oracle over every generated input and every list entry. -/
 namespace LibInj.Properties.C11
 open LibInj LibInj.Xss LibInj.H5
 
@@ -36,49 +41,13 @@ theorem isBlackAttr_case (s s' : Bytes) (h : CaseEq s s') : isBlackAttr s = isBl
   unfold isBlackAttr
   rw [goUpper_case_invariant _ _ (stripNul_caseEq s s' h)]
 
-theorem isBlackAttr_nul (a b : Bytes) : isBlackAttr (a ++ 0 :: b) = isBlackAttr (a ++ b) := by
-  unfold isBlackAttr
-  rw [stripNul_insert]
+theorem isBlackAttr_nul (a b : Bytes) : isBlackAttr (a ++ 0 :: b) = isBlackAttr (a ++ b) := Xss.isBlackAttr_nul a b
 
 /-- table fact: every black tag (and `SVT`, `XSL`) has at least 3 bytes -/
-theorem black_tags_min_length : Gen.blackTags.all (fun t => decide (3 ≤ t.length)) = true ∧ SVT.length = 3 ∧ XSL.length = 3 := by
-  decide +kernel
+theorem black_tags_min_length : Gen.blackTags.all (fun t => decide (3 ≤ t.length)) = true ∧ SVT.length = 3 ∧ XSL.length = 3 :=
+  Xss.black_tags_min_length
 
-theorem isBlackTag_nul (a b : Bytes) : isBlackTag (a ++ 0 :: b) = isBlackTag (a ++ b) := by
-  unfold isBlackTag
-  rw [stripNul_insert]
-  by_cases h3 : (a ++ b).length < 3
-  · -- the shorter name is rejected by the raw-length guard; the longer one cannot match a list entry
-    have hl : ¬ (a ++ 0 :: b).length < 3 ∨ (a ++ 0 :: b).length < 3 := by omega
-    simp only [h3, ↓reduceIte]
-    by_cases h3' : (a ++ 0 :: b).length < 3
-    · simp only [h3', ↓reduceIte]
-    · simp only [h3', ↓reduceIte]
-      have hu : (goUpper (stripNul (a ++ b))).length < 3 := by
-        have h1 := goUpper_length_le _ (stripNul (a ++ b)) (Nat.le_refl _)
-        have h2 : (stripNul (a ++ b)).length ≤ (a ++ b).length := by unfold stripNul; exact List.length_filter_le _ _
-        omega
-      obtain ⟨t1, t2, t3⟩ := black_tags_min_length
-      have hc : Gen.blackTags.contains (goUpper (stripNul (a ++ b))) = false := by
-        cases hcc : Gen.blackTags.contains (goUpper (stripNul (a ++ b))) with
-        | false => rfl
-        | true =>
-          have hm : goUpper (stripNul (a ++ b)) ∈ Gen.blackTags := by simpa using hcc
-          have := List.all_eq_true.mp t1 _ hm
-          simp at this; omega
-      have hs : (goUpper (stripNul (a ++ b)) == SVT) = false := by
-        cases hcc : goUpper (stripNul (a ++ b)) == SVT with
-        | false => rfl
-        | true => have : goUpper (stripNul (a ++ b)) = SVT := by simpa using hcc
-                  rw [this, t2] at hu; omega
-      have hx : (goUpper (stripNul (a ++ b)) == XSL) = false := by
-        cases hcc : goUpper (stripNul (a ++ b)) == XSL with
-        | false => rfl
-        | true => have : goUpper (stripNul (a ++ b)) = XSL := by simpa using hcc
-                  rw [this, t3] at hu; omega
-      rw [hc, hs, hx]; rfl
-  · have h3' : ¬ (a ++ 0 :: b).length < 3 := by simp at h3 ⊢; omega
-    simp only [h3, h3', ↓reduceIte]
+theorem isBlackTag_nul (a b : Bytes) : isBlackTag (a ++ 0 :: b) = isBlackTag (a ++ b) := Xss.isBlackTag_nul a b
 
 /-- NUL is a name byte for the tag-name and attribute-name scans -/
 theorem name_scan_nul : tagNameByte 0 = true ∧ attrNameByte 0 = true := by decide
@@ -91,6 +60,11 @@ example : CaseEq [83, 99, 82, 105, 112, 116] [115, 67, 114, 73, 80, 84] ∧ isBl
   constructor
   · unfold CaseEq; decide
   · decide +kernel
+
+/-- **C11, NUL clause, first element name.** -/
+theorem nul_in_first_element_name (p n1 n2 rest : Bytes) (hp : (60 : UInt8) ∉ p) (h1 : n1 ≠ []) (hn : NameAt (n1 ++ n2) rest) :
+    isXSSCtx (p ++ 60 :: ((n1 ++ 0 :: n2) ++ rest)) 0 = isXSSCtx (p ++ 60 :: ((n1 ++ n2) ++ rest)) 0 :=
+  nul_first_tag p n1 n2 rest hp h1 hn
 
 /-- **C11, letter case: full clause.** -/
 theorem xss_case_insensitive (s s' : Bytes) (h : CaseEq s s') (hno : NoCdata s) (hno' : NoCdata s') :
